@@ -9,7 +9,7 @@ import EaselModel.Dist.BisectCarrier
     mixtures (`esl_hxp_*`, `esl_mixgev_*`, `esl_vec_DLogSum/DMax/DMin`), the four bracketing + bisection inverses (fuel
     `Bisect.defaultFuel` per loop; `hang` = exhausted) and the generic-API wrappers.  Hand-modelled remain: the special
     functions (`Dist/Special.lean`, `erfcSun`) and the component choice of the mixture samplers (`Mix.dchoose`).
-    `f fn=<name> a=<bits>,<bits>,…`            → `ok <bits>`
+    `f fn=<name> a=<bits>,<bits>,…`            → `ok <bits> b=<n>` (`b` = which `return` of the translated function was reached)
     `f2 fn=<g>,<f> a=<x>,<params…>`             → `ok <bits of g(f(x,params),params)>`
     `sample fn=<name> seed=<n> k=<draws> a=…`  → `ok <bits>,…` (k successive samples from a fresh MT19937 generator)
     `vec fn=<DMax|DMin|DLogSum> v=<bits>,…`     → `ok <bits>` (the translated `esl_vec_D*` on `v`, `n = |v|`)
@@ -130,7 +130,12 @@ def step (s : Unit) (line : String) : Unit × String :=
       | "esl_stats_IncGammaQ", [a, x] => (s, s!"ok {hex64 (Num.incGammaQ a x).toBits}")
       | _, _ =>
       match Gen.dispatch fn a with
-      | some v => (s, s!"ok {hex64 v.toBits}")
+      | some v =>
+        -- ` b=<n>`: the number of the `return` reached (branch monitor twin generated with the function; the plug-in strips
+        -- it before comparing and accounts the L0 monitors' coverage per branch)
+        match Gen.dispatchLeaf fn a with
+        | some b => (s, s!"ok {hex64 v.toBits} b={b}")
+        | none => (s, s!"ok {hex64 v.toBits}")
       | none =>
         -- loop-containing functions (fuel) and the generic-API wrappers over a parameter vector, all TRANSLATED
         match Gen.dispatchP Bisect.defaultFuel fn a with
